@@ -94,7 +94,7 @@ PROPS["C15"] = dict(
 PROPS["C03"] = dict(
     modules=["Sth.Props.C01", "Sth.Props.C08"],
     theorems=list(CORE_RL),
-    runs=[dict(engine="crash", quick=48, thorough=2000, nontrivial=["torn", "at:index", "at:primary", "at:freelist", "at:store"])],
+    runs=[dict(engine="crash", quick=48, thorough=2000, nontrivial=["torn", "at:index", "at:primary", "at:freelist", "at:store", "flush-image-interior"])],
     shrink_budget=0,   # the workload is the context of the crash oracle (baseline, acknowledged since): it is kept whole
     crash_lines=True,
     rule="sequential workloads on the multihash primary with small files; while every Flush, iteration, Close, reopen and GC cycle "
@@ -103,7 +103,9 @@ PROPS["C03"] = dict(
          "empty/half-written headers are synthesised between consecutive images. Every image is recovered by the real code in a fresh "
          "directory: OpenStore, read every key (must be the value at the last completed flush or one acknowledged since), put+flush+two "
          "primary GC cycles+index GC, read again, close, reopen by rescan, read again. The same image bytes are loaded into the Lean model "
-         "and its recovery is compared with the real one. Non-trivial = distinct workload with torn images / images at index, primary, "
+         "and its recovery is compared with the real one; every image captured while an explicit Flush ran must equal the crash image "
+         "Sth/Model/CrashImage.lean predicts for that number of file events (creation or appended byte; early creation of the file "
+         "rolled over to included), which ties the model the crash theorem quantifies over to the code. Non-trivial = distinct workload with torn images / images at index, primary, "
          "freelist or store points.",
     assumptions=["process crash: what reached the files stays, in order; power-loss reordering is out of the property's scope",
                  "rename, unlink, truncate and a pwrite of 4 bytes are atomic with respect to a process crash"],
